@@ -10,6 +10,8 @@ def run(tier, seed):
     k = 2 if tier == "quick" else 3
     _, rep = coscommon.mc_and_replay(v, wd, "c16", k, workers=12 if tier == "quick" else 15)
     vlib.require(rep["nontrivial"] > 100, "replay too small")
+    # scriptlets requested by several lists with different permissions, at different levels of the host hierarchy
+    coscommon.mc_and_replay(v, wd, "c18", 2, workers=12)
     # the text side: cosmetic lines <locations>#<marker>#<body> -> rule or refusal (CosParse.tla)
     _, rep_p = coscommon.mc_and_replay(v, wd, "parse", 1, workers=8)
     vlib.require(rep_p["evaluations"] > 40000 and rep_p["nontrivial"] > 200, "cosmetic parse universe too small")
